@@ -43,6 +43,7 @@ impl C03 {
             sets.push(TitleSet { name: format!("F2<={}", tier.pick(5, 6)), l, titles: Titles::Chars { fam: fam2(l), lo: 0, hi: tier.pick(5, 6) }, nctx: 2, block: 400 });
             sets.push(TitleSet { name: format!("F4<={}", tier.pick(6, 7)), l, titles: Titles::Chars { fam: fam4(l), lo: 0, hi: tier.pick(6, 7) }, nctx: 2, block: 400 });
             sets.push(TitleSet { name: format!("F5<={}", tier.pick(5, 6)), l, titles: Titles::Chars { fam: fam5(l), lo: 0, hi: tier.pick(5, 6) }, nctx: 2, block: 400 });
+            sets.push(TitleSet { name: format!("F7-numerics<={}", tier.pick(5, 6)), l, titles: Titles::Chars { fam: fam7(l), lo: 0, hi: tier.pick(5, 6) }, nctx: 1, block: 400 });
             sets.push(TitleSet { name: format!("F3<={}", tier.pick(5, 6)), l, titles: Titles::Chars { fam: fam3(l), lo: 0, hi: tier.pick(5, 6) }, nctx: 1, block: 400 });
             sets.push(TitleSet { name: format!("F6-words<={}", tier.pick(6, 8)), l, titles: Titles::Chars { fam: fam6(l), lo: 1, hi: tier.pick(6, 8) }, nctx: 1, block: 2000 });
         }
